@@ -26,18 +26,19 @@ VARIABLES tid, l,
   vtry,         \* vtry[u]: try count of item u when its current visit began
   robotsDone,   \* robotsDone[h]: a robots.txt answer (200, 404, ...) of host h has been delivered
   robotsAsked,  \* robotsAsked[h]: number of robots.txt requests for host h made after it was obtained
-  pend,         \* pend[n] = kind of request n still unanswered: used to attribute answers
+  pend,         \* (unused)
+  mayreq, mayreqNF, expected,   \* reference sets of this trace's site, computed once in MInit
   doneAtCrash, rowsAtCrash, crashed, exited, viol
 
-mvars == <<tid, l, run, st, try, lvl, req, vreq, vtry, robotsDone, robotsAsked, pend, doneAtCrash, rowsAtCrash,
-           crashed, exited, viol>>
+mvars == <<tid, l, run, st, try, lvl, req, vreq, vtry, robotsDone, robotsAsked, pend, mayreq, mayreqNF, expected,
+           doneAtCrash, rowsAtCrash, crashed, exited, viol>>
 
 S   == Batch[tid]
 Ev  == S.ev
 Cur == Ev[l]
 O   == S.opts
 URLs  == 1..S.U
-Hosts == 1..S.H
+Hosts == 1..S.OR    \* origins (host name + port): the unit robots.txt applies to
 Range(f) == {f[i] : i \in DOMAIN f}
 
 -----------------------------------------------------------------------------
@@ -46,7 +47,7 @@ Range(f) == {f[i] : i \in DOMAIN f}
 StartSet   == Range(S.start)
 StartHosts == {S.host[s] : s \in StartSet}
 RobotsOn   == O.robots = 1
-Disallowed(u) == RobotsOn /\ S.robotskind[S.host[u]] = "rules" /\ S.disallowed[u] = 1
+Disallowed(u) == RobotsOn /\ S.robotskind[S.origin[u]] = "rules" /\ S.disallowed[u] = 1
 
 \* a link to c found at depth d-1 (so c has depth d), inline or not
 HostOK(c)  == O.spanhosts = 1 \/ S.host[c] \in StartHosts
@@ -111,6 +112,7 @@ MInit ==
   /\ vreq = [u \in URLs |-> 0] /\ vtry = [u \in URLs |-> 0]
   /\ robotsDone = [h \in Hosts |-> FALSE] /\ robotsAsked = [h \in Hosts |-> 0]
   /\ pend = <<>>
+  /\ mayreq = MayReqN(TRUE) /\ mayreqNF = MayReqN(FALSE) /\ expected = [u \in URLs |-> Expected(u)]
   /\ doneAtCrash = {} /\ rowsAtCrash = {} /\ crashed = FALSE /\ exited = FALSE /\ viol = 0
 
 InU(u) == u \in URLs
@@ -124,10 +126,10 @@ ReqViol(e) ==
        ELSE IF e.h \in Hosts /\ robotsDone[e.h] THEN 31             \* C20: fetched again once obtained
        ELSE 0
   ELSE IF ~InU(e.u) THEN (IF e.kind = "other" THEN 20 ELSE 0)        \* C02: request for a URL that is not on the site map
-  ELSE IF RobotsOn /\ ~robotsDone[S.host[e.u]] THEN 32               \* C20: page requested before robots.txt obtained
+  ELSE IF RobotsOn /\ ~robotsDone[S.origin[e.u]] THEN 32               \* C20: page requested before robots.txt obtained
   ELSE IF Disallowed(e.u) THEN 33                                    \* C20: disallowed URL requested
-  ELSE IF e.u \notin MayReq
-       THEN (IF e.u \in MayReqN(FALSE) THEN 34                       \* C20: a link of a nofollow page was followed
+  ELSE IF e.u \notin mayreq
+       THEN (IF e.u \in mayreqNF THEN 34                       \* C20: a link of a nofollow page was followed
              ELSE 21)                                                \* C02: outside the configured scope
   ELSE IF InU(e.item) /\ vreq[e.item] + 1 > VisitBound THEN 40       \* C18: more requests in one visit than allowed
   ELSE IF InU(e.item) /\ O.tries > 0 /\ vtry[e.item] >= O.tries THEN 41  \* C18: attempted again after tries exhausted
@@ -136,15 +138,15 @@ ReqViol(e) ==
 ExitViol(e) ==
   IF S.benign = 1 /\ ~crashed
   THEN IF e.code # 0 THEN 10
-       ELSE IF \E u \in URLs : req[1][u] < Expected(u) THEN 11      \* C01: an in-scope reachable URL was not requested
-       ELSE IF \E u \in URLs : req[1][u] > Expected(u) THEN 12      \* C01: requested more than once
+       ELSE IF \E u \in URLs : req[1][u] < expected[u] THEN 11      \* C01: an in-scope reachable URL was not requested
+       ELSE IF \E u \in URLs : req[1][u] > expected[u] THEN 12      \* C01: requested more than once
        ELSE IF \E u \in URLs : st[u] \notin {"none", "done", "skipped"} THEN 13   \* C01: a row left non-final
        ELSE 0
   ELSE IF S.benign = 1 /\ crashed
   THEN IF \E u \in doneAtCrash : req[2][u] > 0 THEN 50               \* C03: done before the kill, requested again
        ELSE IF \E u \in URLs : st[u] = "in_progress" THEN 51         \* C03: left stuck in progress
        ELSE IF \E u \in rowsAtCrash : st[u] = "none" THEN 52         \* C03: a discovered URL was lost
-       ELSE IF \E u \in URLs : req[1][u] + req[2][u] = 0 /\ Expected(u) > 0 THEN 53   \* C03: never requested
+       ELSE IF \E u \in URLs : req[1][u] + req[2][u] = 0 /\ expected[u] > 0 THEN 53   \* C03: never requested
        ELSE IF \E u \in URLs : st[u] \notin {"none", "done", "skipped"} THEN 54
        ELSE 0
   ELSE IF \E u \in URLs : st[u] \in {"todo", "in_progress"} THEN 42   \* C18: crawl ended with pending work
@@ -159,10 +161,13 @@ MNext ==
      /\ run' = IF e.e = "start" THEN e.run ELSE run
      /\ crashed' = (crashed \/ e.e = "crash")
      /\ exited' = (exited \/ e.e = "exit")
-     /\ doneAtCrash' = IF e.e = "crash" THEN {u \in URLs : st[u] = "done"} ELSE doneAtCrash
-     /\ rowsAtCrash' = IF e.e = "crash" THEN {u \in URLs : st[u] # "none"} ELSE rowsAtCrash
+     \* after the kill the harness reads the table back (dbsync): what the database says is what "recorded
+     \* before the kill" means (the last transaction may have committed without its event having been logged)
+     /\ doneAtCrash' = IF e.e = "dbsync" THEN {u \in URLs : e.st[u] = "done"} ELSE doneAtCrash
+     /\ rowsAtCrash' = IF e.e = "dbsync" THEN {u \in URLs : e.st[u] # "none"} ELSE rowsAtCrash
      \* ---- table mirror
-     /\ st' = IF e.e = "tx" /\ e.op = "add_many"
+     /\ st' = IF e.e = "dbsync" THEN [u \in URLs |-> e.st[u]]
+              ELSE IF e.e = "tx" /\ e.op = "add_many"
               THEN [u \in URLs |-> IF u \in Range(e.new) /\ st[u] = "none" THEN "todo" ELSE st[u]]
               ELSE IF e.e = "tx" /\ e.op = "check_out" /\ e.found /\ InU(e.u) THEN [st EXCEPT ![e.u] = "in_progress"]
               ELSE IF e.e = "tx" /\ e.op = "check_in" /\ InU(e.u) THEN [st EXCEPT ![e.u] = e.st]
@@ -171,8 +176,10 @@ MNext ==
               ELSE IF e.e = "tx" /\ e.op = "remove_many"
               THEN [u \in URLs |-> IF u \in Range(e.urls) THEN "none" ELSE st[u]]
               ELSE st
-     /\ try' = IF e.e = "tx" /\ e.op = "check_in" /\ InU(e.u) /\ e.inc THEN [try EXCEPT ![e.u] = Cap(@)] ELSE try
-     /\ lvl' = IF e.e = "tx" /\ e.op = "add_many"
+     /\ try' = IF e.e = "dbsync" THEN [u \in URLs |-> IF e.tr[u] < 9 THEN e.tr[u] ELSE 9]
+               ELSE IF e.e = "tx" /\ e.op = "check_in" /\ InU(e.u) /\ e.inc THEN [try EXCEPT ![e.u] = Cap(@)] ELSE try
+     /\ lvl' = IF e.e = "dbsync" THEN [u \in URLs |-> e.lv[u]]
+               ELSE IF e.e = "tx" /\ e.op = "add_many"
                THEN [u \in URLs |-> IF u \in Range(e.new) /\ st[u] = "none"
                                     THEN e.levels[CHOOSE i \in DOMAIN e.urls : e.urls[i] = u] ELSE lvl[u]]
                ELSE lvl
@@ -182,7 +189,7 @@ MNext ==
                 ELSE vreq
      /\ vtry' = IF e.e = "vbegin" /\ InU(e.u) THEN [vtry EXCEPT ![e.u] = try[e.u]] ELSE vtry
      /\ req' = IF e.e = "req" /\ e.kind # "robots" /\ InU(e.u) THEN [req EXCEPT ![run][e.u] = Cap(@)] ELSE req
-     /\ pend' = pend
+     /\ UNCHANGED <<pend, mayreq, mayreqNF, expected>>
      /\ robotsDone' = IF e.e = "start" THEN [h \in Hosts |-> FALSE]   \* the pool does not survive a restart
                       ELSE IF e.e = "resp" /\ e.cls \in {"robots200", "robots404"} /\ e.h \in Hosts
                       THEN [robotsDone EXCEPT ![e.h] = TRUE]
